@@ -17,7 +17,18 @@ use repe::{Header, Message, MessageView};
 use serde_json::{json, Value};
 use std::io::{BufRead, Write};
 
-const ENTRIES: [&str; 9] = ["header", "slice", "slice_view", "exact", "exact_view", "read", "read_into", "read_async", "read_into_async"];
+const ENTRIES: [&str; 11] = ["header", "slice", "slice_view", "exact", "exact_view", "read", "read_into", "read_async", "read_into_async", "read_into_reused", "read_into_async_reused"];
+
+/// a buffer as a connection loop has it after two earlier frames (it grew once, then again): capacity > len is possible
+fn warmed_buffer(rt: &tokio::runtime::Runtime, asynchronous: bool) -> Vec<u8> {
+    let mut v = Vec::new();
+    for n in [16usize, 100] {
+        let f = Message::builder().id(1).query_str("/warm").body_bytes(vec![7u8; n]).build().to_vec();
+        if asynchronous { rt.block_on(async { repe::async_io::read_message_into_async(&mut &f[..], &mut v).await }).unwrap(); }
+        else { repe::read_message_into(&mut std::io::Cursor::new(&f), &mut v).unwrap(); }
+    }
+    v
+}
 
 fn filler(i: usize) -> u8 {
     ((i * 7 + 3) & 0xff) as u8
@@ -47,6 +58,16 @@ fn run_entry(entry: &str, buf: &[u8], rt: &tokio::runtime::Runtime) -> Out {
             "read_async" => rt.block_on(async { repe::async_io::read_message_async(&mut &buf[..]).await }).map(|m| (m.query, m.body)).map_err(|e| format!("{e:?}")),
             "read_into_async" => {
                 let mut v = Vec::new();
+                rt.block_on(async { repe::async_io::read_message_into_async(&mut &buf[..], &mut v).await }).map_err(|e| format!("{e:?}"))?;
+                MessageView::from_slice_exact(&v).map(|m| (m.query.to_vec(), m.body.to_vec())).map_err(|e| format!("reader returned Ok but the frame does not parse: {e:?}"))
+            }
+            "read_into_reused" => {
+                let mut v = warmed_buffer(rt, false);
+                repe::read_message_into(&mut std::io::Cursor::new(buf), &mut v).map_err(|e| format!("{e:?}"))?;
+                MessageView::from_slice_exact(&v).map(|m| (m.query.to_vec(), m.body.to_vec())).map_err(|e| format!("reader returned Ok but the frame does not parse: {e:?}"))
+            }
+            "read_into_async_reused" => {
+                let mut v = warmed_buffer(rt, true);
                 rt.block_on(async { repe::async_io::read_message_into_async(&mut &buf[..], &mut v).await }).map_err(|e| format!("{e:?}"))?;
                 MessageView::from_slice_exact(&v).map(|m| (m.query.to_vec(), m.body.to_vec())).map_err(|e| format!("reader returned Ok but the frame does not parse: {e:?}"))
             }
@@ -374,6 +395,37 @@ fn fields_json(h: &Header) -> Value {
 }
 
 /// every emission route for (header, query, body): (route name, bytes)
+/// a sink that accepts at most `step` bytes per write call (a socket with a small send buffer)
+struct ShortSink { out: Vec<u8>, step: usize }
+impl Write for ShortSink {
+    fn write(&mut self, b: &[u8]) -> std::io::Result<usize> { let n = b.len().min(self.step); self.out.extend_from_slice(&b[..n]); Ok(n) }
+    fn write_vectored(&mut self, bufs: &[std::io::IoSlice<'_>]) -> std::io::Result<usize> {
+        let mut left = self.step; let mut n = 0;
+        for b in bufs { let k = b.len().min(left); self.out.extend_from_slice(&b[..k]); left -= k; n += k; if left == 0 { break; } }
+        Ok(n)
+    }
+    fn flush(&mut self) -> std::io::Result<()> { Ok(()) }
+}
+impl tokio::io::AsyncWrite for ShortSink {
+    fn poll_write(mut self: std::pin::Pin<&mut Self>, _: &mut std::task::Context<'_>, b: &[u8]) -> std::task::Poll<std::io::Result<usize>> { std::task::Poll::Ready(Write::write(&mut *self, b)) }
+    fn poll_write_vectored(mut self: std::pin::Pin<&mut Self>, _: &mut std::task::Context<'_>, bufs: &[std::io::IoSlice<'_>]) -> std::task::Poll<std::io::Result<usize>> { std::task::Poll::Ready(Write::write_vectored(&mut *self, bufs)) }
+    fn is_write_vectored(&self) -> bool { true }
+    fn poll_flush(self: std::pin::Pin<&mut Self>, _: &mut std::task::Context<'_>) -> std::task::Poll<std::io::Result<()>> { std::task::Poll::Ready(Ok(())) }
+    fn poll_shutdown(self: std::pin::Pin<&mut Self>, _: &mut std::task::Context<'_>) -> std::task::Poll<std::io::Result<()>> { std::task::Poll::Ready(Ok(())) }
+}
+/// a source that returns at most `step` bytes per read call
+struct ShortSource<'a> { data: &'a [u8], pos: usize, step: usize }
+impl std::io::Read for ShortSource<'_> {
+    fn read(&mut self, out: &mut [u8]) -> std::io::Result<usize> { let n = out.len().min(self.step).min(self.data.len() - self.pos); out[..n].copy_from_slice(&self.data[self.pos..self.pos + n]); self.pos += n; Ok(n) }
+}
+impl tokio::io::AsyncRead for ShortSource<'_> {
+    fn poll_read(mut self: std::pin::Pin<&mut Self>, _: &mut std::task::Context<'_>, out: &mut tokio::io::ReadBuf<'_>) -> std::task::Poll<std::io::Result<()>> {
+        let n = out.remaining().min(self.step).min(self.data.len() - self.pos);
+        let (p, d) = (self.pos, self.data);
+        out.put_slice(&d[p..p + n]); self.pos += n; std::task::Poll::Ready(Ok(()))
+    }
+}
+
 fn emit_all(h: &Header, q: &[u8], b: &[u8], rt: &tokio::runtime::Runtime) -> Vec<(String, Result<Vec<u8>, String>)> {
     let msg = || Message { header: *h, query: q.to_vec(), body: b.to_vec() };
     let mut out: Vec<(String, Result<Vec<u8>, String>)> = vec![];
@@ -417,6 +469,22 @@ fn emit_all(h: &Header, q: &[u8], b: &[u8], rt: &tokio::runtime::Runtime) -> Vec
         rt.block_on(async { repe::async_io::write_message_async(&mut v, &msg()).await }).map_err(|e| e.to_string())?;
         Ok(v)
     }));
+    // the stream routes against sinks that take only a few bytes per call: the short write may end inside the header,
+    // at its end, inside the query or inside the body
+    for step in [1usize, 47, 49, 48 + q.len() + 1] {
+        out.push(guard(&format!("write_to_short{step}"), &|| { let mut v = ShortSink { out: vec![], step }; msg().write_to(&mut v).map_err(|e| e.to_string())?; Ok(v.out) }));
+        out.push(guard(&format!("write_message_short{step}"), &|| { let mut v = ShortSink { out: vec![], step }; repe::write_message(&mut v, &msg()).map_err(|e| e.to_string())?; Ok(v.out) }));
+        out.push(guard(&format!("write_message_streaming_short{step}"), &|| {
+            let mut v = ShortSink { out: vec![], step };
+            repe::write_message_streaming(&mut v, *h, q, b.len() as u64, |w: &mut ShortSink| w.write_all(b)).map_err(|e| e.to_string())?;
+            Ok(v.out)
+        }));
+        out.push(guard(&format!("write_message_async_short{step}"), &|| {
+            let mut v = ShortSink { out: vec![], step };
+            rt.block_on(async { repe::async_io::write_message_async(&mut v, &msg()).await }).map_err(|e| e.to_string())?;
+            Ok(v.out)
+        }));
+    }
     out
 }
 
@@ -449,6 +517,21 @@ fn parse_all(frame: &[u8], h: &Header, q: &[u8], b: &[u8], rt: &tokio::runtime::
         rt.block_on(async { repe::async_io::read_message_into_async(&mut &frame[..], &mut v).await }).map_err(|e| e.to_string())?;
         MessageView::from_slice_exact(&v).map(|m| (m.header, m.query.to_vec(), m.body.to_vec())).map_err(|e| e.to_string())
     }));
+    // sources that deliver a few bytes per call
+    for step in [1usize, 47, 49] {
+        chk(&format!("read_message_short{step}"), g(&|| repe::read_message(&mut ShortSource { data: frame, pos: 0, step }).map(|m| (m.header, m.query, m.body)).map_err(|e| e.to_string())));
+        chk(&format!("read_message_into_short{step}"), g(&|| {
+            let mut v = vec![];
+            repe::read_message_into(&mut ShortSource { data: frame, pos: 0, step }, &mut v).map_err(|e| e.to_string())?;
+            MessageView::from_slice_exact(&v).map(|m| (m.header, m.query.to_vec(), m.body.to_vec())).map_err(|e| e.to_string())
+        }));
+        chk(&format!("read_message_async_short{step}"), g(&|| rt.block_on(async { repe::async_io::read_message_async(&mut ShortSource { data: frame, pos: 0, step }).await }).map(|m| (m.header, m.query, m.body)).map_err(|e| e.to_string())));
+        chk(&format!("read_message_into_async_short{step}"), g(&|| {
+            let mut v = vec![];
+            rt.block_on(async { repe::async_io::read_message_into_async(&mut ShortSource { data: frame, pos: 0, step }, &mut v).await }).map_err(|e| e.to_string())?;
+            MessageView::from_slice_exact(&v).map(|m| (m.header, m.query.to_vec(), m.body.to_vec())).map_err(|e| e.to_string())
+        }));
+    }
     bad
 }
 
